@@ -9,7 +9,7 @@ ENTRIES = ["property", "explicit"]
 STATUS = {"st0": 0, "stm1": -1, "stm2": -2, "stm3": -3}
 
 
-def make_fake(kind, fault, log, avail=True):
+def make_fake(kind, fault, log, avail=True, incumbent=True):
     import pulp
 
     class FakeSolver(pulp.LpSolver):
@@ -32,7 +32,7 @@ def make_fake(kind, fault, log, avail=True):
                 st = pulp.PULP_CBC_CMD(msg=False).actualSolve(lp)
                 log.append(["SolveReturned", int(st)])
                 return st
-            if fault == "st0":     # stopped with an incumbent but not proven optimal
+            if fault == "st0" and incumbent:     # stopped with an incumbent but not proven optimal
                 pulp.PULP_CBC_CMD(msg=False).actualSolve(lp)
             st = STATUS[fault]
             lp.assignStatus(st)
@@ -49,15 +49,15 @@ def record_call(case):
     log = []
     cfg, fault, entry = case["cfg"], case["fault"], case["entry"]
     b = ss._bpseq(case)
+    inc = int(case["sid"][1:]) % 2 == 0      # "not solved" with / without variable values, by structure
     saved = (pulp.HiGHS_CMD, pulp.LpSolverDefault)
     try:
         if entry == "property":
-            pulp.HiGHS_CMD = lambda *a, **k: make_fake("highs", fault, log, avail=(cfg == "highs"))
-            pulp.LpSolverDefault = make_fake("cbc", fault, log) if cfg == "cbc" else (
-                make_fake("cbc", fault, log) if cfg == "highs" else None)
+            pulp.HiGHS_CMD = lambda *a, **k: make_fake("highs", fault, log, avail=(cfg == "highs"), incumbent=inc)
+            pulp.LpSolverDefault = make_fake("cbc", fault, log, incumbent=inc) if cfg in ("cbc", "highs") else None
             c["result"] = ss._enc(lambda: b.dot_bracket)
         else:
-            solver = None if cfg == "none" else make_fake(cfg, fault, log)
+            solver = None if cfg == "none" else make_fake(cfg, fault, log, incumbent=inc)
             c["result"] = ss._enc(lambda: b.convert_to_dot_bracket(solver))
     finally:
         pulp.HiGHS_CMD, pulp.LpSolverDefault = saved
